@@ -132,6 +132,14 @@ Definition spec_violated (c : cfg) (s' : state) (ob : obsF) : bool :=
           || negb (subset pair_eqb (o_scan ob) (filter isvalid (spec ++ window_files s')))
           || negb (length (o_scan ob) <=? length (filter isvalid (spec ++ window_files s'))))).
 
+(* "TombstoneFile removes every artifact of its pointer": after a TombstoneFile that returned nil
+   the directory the implementation showed has no entry (.dat or .tmp) under that base. *)
+Definition tomb_violated (o : opF) (ob : obsF) : bool :=
+  match o with
+  | FTomb b _ => o_ok ob && existsb (fun e : fname * str => str_eqb (fst (fst e)) b) (o_listing ob)
+  | _ => false
+  end.
+
 (* result of evaluating one sequence: (mismatch, violation) *)
 Fixpoint eval_steps (c : cfg) (draw : nat -> str) (pos : nat) (s : state) (steps : list (opF * obsF)) : bool * bool :=
   match steps with
@@ -156,7 +164,7 @@ Fixpoint eval_steps (c : cfg) (draw : nat -> str) (pos : nat) (s : state) (steps
                end in
           (* the specification, judged on what the implementation showed: the scan lists exactly
              the files whose Close succeeded and that were not tombstoned, with the bytes written *)
-          let viol := spec_violated c s' ob in
+          let viol := spec_violated c s' ob || tomb_violated o ob in
           let '(m, v) := eval_steps c draw (pos + draws_used ls) s' rest in
           (mism || m, viol || v)
       end
@@ -186,7 +194,7 @@ Definition eval_case (cs : caseF) : bool * bool :=
   end.
 
 (* debugging aid: index of the first step whose comparison fails, with the failing component
-   (1 labels, 2 result, 3 listing, 4 scan, 5 pointer/read, 6 model refused the plan, 7 spec) *)
+   (1 labels, 2 result, 3 listing, 4 scan, 5 pointer/read, 6 model refused the plan, 7 spec, 8 tombstone left an artifact) *)
 Fixpoint first_bad (c : cfg) (draw : nat -> str) (pos : nat) (s : state) (steps : list (opF * obsF)) (i : nat) : option (nat * nat) :=
   match steps with
   | [] => None
@@ -207,6 +215,7 @@ Fixpoint first_bad (c : cfg) (draw : nat -> str) (pos : nat) (s : state) (steps 
                   | _ => false
                   end then Some (i, 5)
           else if spec_violated c s' ob then Some (i, 7)
+          else if tomb_violated o ob then Some (i, 8)
           else first_bad c draw (pos + draws_used ls) s' rest (S i)
       end
   end.
